@@ -146,6 +146,7 @@ func c12CheckLine(c *Ctx, line string, reqs []*rules.Request, engines bool) (acc
 var c12Rules = []string{
 	"||example.org^", "@@||example.org^$important", "/ad$domain=example.org", "/ex[a-z]+le/", "0.0.0.0 hosts.test", "hosts2.test",
 	"##.g1", "example.org##.s1", "example.org#@#.g1", "||rw.test^$dnsrewrite=1.2.3.4",
+	"/ad", // three bytes: the shortest line that is a rule
 }
 
 var c12Noise = []string{"", "  ", "\t", "! comment", "# comment", "#", "bad$unknown", "||x.test^$replace=/a/b/", "@@", "||y.test^$domain=", "$$script[x]",
@@ -209,12 +210,43 @@ func c12AnswersOver(st *filterlist.RuleStorage) string {
 	return sb.String()
 }
 
+// c12PairQueries builds every engine over the lines and runs web and DNS
+// queries for ads.example.com; it reports a panic and returns false.
+func c12PairQueries(c *Ctx, lines []string, webReqs []*rules.Request) bool {
+	if p := protect(func() {
+		st := stringStorage(joinLines(lines) + "\n")
+		e := urlfilter.NewEngine(st)
+		ne := urlfilter.NewNetworkEngine(st)
+		de := urlfilter.NewDNSEngine(st)
+		for _, q := range webReqs {
+			e.MatchRequest(q).GetBasicResult()
+			ne.Match(q)
+		}
+		res, _ := de.MatchRequest(scenDNSReq())
+		res.DNSRewrites()
+		res, _ = de.MatchRequest(&urlfilter.DNSRequest{Hostname: "ads.example.com", DNSType: 28})
+		res.DNSRewritesAll()
+	}); p != nil {
+		c.Run.Violate(ev.Violation{Pred: "no-crash", Sig: map[string]any{"lines": lines}, What: fmt.Sprintf("engines over %q: a query panics: %v", lines, p), Replay: map[string]any{"pair_lines": lines}})
+		return false
+	}
+	return true
+}
+
 func init() {
 	register("C12", "exploration", func(c *Ctx) {
 		reqs := c12Requests
 		if c.Replay != nil {
 			if line, ok := c.Replay["line"].(string); ok {
 				c12CheckLine(c, line, reqs(), true)
+				return
+			}
+			if pl, ok := c.Replay["pair_lines"].([]any); ok {
+				var lines []string
+				for _, l := range pl {
+					lines = append(lines, l.(string))
+				}
+				c12PairQueries(c, lines, []*rules.Request{rules.NewRequest("http://ads.example.com/x", "http://src.org/", rules.TypeScript), rules.NewRequest("http://ads.example.com/x", "", rules.TypeDocument)})
 				return
 			}
 			base, _ := c.Replay["base"].(string)
@@ -315,6 +347,30 @@ func init() {
 		accepted += corpusAccepted.Load()
 		c.Run.Set("corpus_lines", int64(len(corpus)))
 		c.Run.Set("corpus_line_mutants", int64(len(mutants)))
+
+		// pair layer: crashes that need two cooperating rules (a rule and the
+		// $badfilter twin of another one, compared lazily at query time): every
+		// ordered pair of the structurally given rule pool, through every engine
+		pool := c08Pool()
+		var pairEvals atomic.Int64
+		webReqs := []*rules.Request{rules.NewRequest("http://ads.example.com/x", "http://src.org/", rules.TypeScript), rules.NewRequest("http://ads.example.com/x", "", rules.TypeDocument)}
+		c.parallel(len(pool), func(i int) {
+			if c.Expired() {
+				mu.Lock()
+				exhaustive = false
+				mu.Unlock()
+				return
+			}
+			for j := range pool {
+				for _, lines := range [][]string{{pool[i].text(), pool[j].twin(len(pool[j].opts)).text()}, {pool[j].twin(0).text(), pool[i].text(), pool[j].text()}} {
+					pairEvals.Add(1)
+					if !c12PairQueries(c, lines, webReqs) {
+						return
+					}
+				}
+			}
+		})
+		c.Run.Set("rule_pair_lists", pairEvals.Load())
 
 		// inertness
 		var lists [][]int
